@@ -157,6 +157,20 @@ func Build(p *Project) (res *Built) {
 		}
 		rootPath = rp
 		res.Dir = dir
+		if rel, err := filepath.Rel(dir, rp); err == nil && p.RootSpelling != "" {
+			sep := string(filepath.Separator)
+			switch p.RootSpelling {
+			case "dot":
+				rootPath = dir + sep + "." + sep + rel
+			case "slashes":
+				rootPath = dir + sep + sep + rel
+			case "updown":
+				_ = os.MkdirAll(filepath.Join(dir, "zz_spelling"), 0o755)
+				rootPath = dir + sep + "zz_spelling" + sep + ".." + sep + rel
+			default:
+				panic("harness: unknown root spelling " + p.RootSpelling)
+			}
+		}
 	} else {
 		dir = filepath.Dir(PlayRoot())
 		rootPath = filepath.Join(dir, filepath.Base(p.Root))
